@@ -220,6 +220,13 @@ def rule_sql(program, ctx, fields, prop=P, rid="C01.sql"):
     for t in _templates(ef):
         it.cls(t, enclosing_stmt(t))
     _report_holes(ctx, prop, rid, it, "SQL")
+    seen_alt = set()
+    for call_, st_ in it.alterations:
+        if id(call_) in seen_alt:
+            continue
+        seen_alt.add(id(call_))
+        ctx.bad(finding_at(prop, rid, call_, f"a filter value is rewritten by `{ast.unparse(call_)[:60]}` before it is matched: the statement then matches a different value than "
+                           "the client asked for (e.g. a value with an embedded NUL matches the value without it; an all-NUL value matches everything)", text="value rewritten"))
     # everything appended to the caller's fragment list must be assembled-safe
     frag_ok = True
     for c in walk_no_nested(ef):
@@ -467,6 +474,12 @@ def rule_residual(program, ctx, prop=P, rid="C01.residual"):
     cfg = cfg_of(mt)
     pred_names = {s.targets[0].id for s in walk_no_nested(mt) if isinstance(s, ast.Assign) and isinstance(s.value, ast.Call) and call_name(s.value) == "compile_match_from_query" and isinstance(s.targets[0], ast.Name)}
     row_names = {s.targets[0].id for s in walk_no_nested(mt) if isinstance(s, ast.Assign) and isinstance(s.value, ast.Call) and call_name(s.value) == "get_event_data" and isinstance(s.targets[0], ast.Name)}
+    for pn in sorted(pred_names):
+        for st in stores_of(mt, pn):
+            v = st.value if isinstance(st, ast.Assign) else None
+            if not (isinstance(v, ast.Call) and call_name(v) == "compile_match_from_query" and v.args and dotted(v.args[0]) == mt.args.args[2].arg):
+                ctx.bad(finding_at(prop, rid, st, f"the residual predicate `{pn}` is not always compile_match_from_query(<the plan's query items>): on this path index hits are returned "
+                                   "without being re-matched (odd-length hex ids, prefix-overlapping values)"))
 
     def pred(expr, pol):
         return pol and isinstance(expr, ast.Call) and isinstance(expr.func, ast.Name) and expr.func.id in pred_names and expr.args and isinstance(expr.args[0], ast.Name) and expr.args[0].id in row_names
